@@ -129,6 +129,8 @@ type c10State struct {
 	keyOcc map[string]int
 	tagOrder bool // judge the completion order of pipelined Tag requests (C09)
 	pipeFids []uint32 // fids on which a Tag pipeline of several request kinds is running
+	prevErr  map[int]error // per caller: the error its previous failing call returned
+	prevWant map[int]string
 	gs     []*rt.G
 }
 
@@ -220,6 +222,19 @@ func (st *c10State) runCallerOps(ci int, ops []Op, late bool) {
 				} else if clnt.Dotu && e.Errornum != wantNum {
 					bad = fmt.Sprintf("Rerror number %d came back as %d", wantNum, e.Errornum)
 				}
+			}
+			if bad == "" && op.K == "readerr" && st.tagOrder {
+				// the error an earlier failing call returned is that call's for good: a later failing call does
+				// not change it
+				if st.prevErr != nil {
+					if e, ok := st.prevErr[ci].(*go9p.Error); ok && e != nil && e.Err != st.prevWant[ci] {
+						bad = fmt.Sprintf("the error returned by an earlier call read %q; after a later failing call it reads %q", st.prevWant[ci], e.Err)
+					}
+				} else {
+					st.prevErr, st.prevWant = map[int]error{}, map[int]string{}
+				}
+				st.prevErr[ci] = err
+				st.prevWant[ci], _ = errFor(off)
 			}
 			cl.end(nil, bad)
 			if bad == "" {
